@@ -132,7 +132,7 @@ func c15Stream(r *hx.Rand, tier string, n int, w *bufio.Writer) map[string]int {
 		// ---- subject token
 		type pres struct {
 			tok, declared, subject string
-			liveAs             map[string]bool // declared type -> live
+			liveAs                 map[string]bool // declared type -> live
 		}
 		mk := func(kind string) pres {
 			p := pres{liveAs: map[string]bool{}, subject: user}
